@@ -87,8 +87,10 @@ def gen_case(rng, hostile_p=0.08, limits=None, max_nodes=40, n_frames=None, n_wa
                 keep=g.pool)
 
 
-def run_impl(case, n_actions=1, event="line", arg=None, extra_cfg=None, per_action=None):
-    """Drive the real handler once; returns (list of snapshots in action order, handler error log)."""
+def run_impl(case, n_actions=1, event="line", arg=None, extra_cfg=None, per_action=None, as_log_fields=False):
+    """Drive the real handler once; returns (list of snapshots in action order, handler error log).
+    as_log_fields: the case's watch expressions are handed over as the FIELDS of the tracepoint's log message instead of as watches
+    (a log field is collected like a watch, under the same limits, into the same table)."""
     from deep.api.resource import Resource
     from deep.api.tracepoint.trigger import LocationAction, Trigger, LineLocation, Location
     from deep.config.config_service import ConfigService
@@ -114,6 +116,9 @@ def run_impl(case, n_actions=1, event="line", arg=None, extra_cfg=None, per_acti
             del conf["frame_type"]            # the argument is absent
         if event != "line":
             conf["stage"] = "line_capture"
+        if as_log_fields and conf["watches"]:
+            conf["log_msg"] = " | ".join("{%s}" % w for w in conf["watches"])
+            conf["watches"] = []
         conf.update(extra_cfg or {})
         actions.append(LocationAction("tp-%d" % k, None, conf, LocationAction.ActionType.Snapshot))
     top = case["frames"][0]
